@@ -89,9 +89,9 @@ func c01GetAlphabet() *c01Alphabet {
 		)
 		long := "http://example.org/ads?" + strings.Repeat("x", 4070) + "/banner-ads-"
 		urls := []string{"http://example.org/", "https://sub.example.org/ads?x=1", "http://x.com/banner", "http://EXAMPLE.ORG/ADS", "http://example.org/?u=example.org",
-			"http://x.test/" + a.wA + "/", "http://x.test/" + a.wB + "/", "http://example.org/-ads-/ad", "https://y.test/ad", "http://x.test/реклама-x?q", "http://example.org/\u212aelvin-ads-/\u0130/ad", "http://ads1.example.org/?u=http://ads2.example.org/", long,
+			"http://x.test/" + a.wA + "/", "http://x.test/" + a.wB + "/", "http://example.org/-ads-/ad", "https://y.test/ad", "http://x.test/реклама-x?q", "http://example.org/\u212aelvin-ads-/\u0130/ad", "http://ads1.example.org/?u=http://ads2.example.org/", long, "http://example.example.org/-ads-/-ads-",
 			"http://" + strings.TrimSuffix(strings.TrimPrefix(a.tA, "||"), "^") + "/AB", "http://" + strings.TrimSuffix(strings.TrimPrefix(a.tB, "||"), "^") + "/x/ab"}
-		srcs := []string{"", "http://example.org/", "http://sub.example.org/", "https://www.google.co.uk/", "http://x.google.agoogle.com/", "http://" + a.hA + "/", "http://" + a.hB + "/", "http://x.com/", "http://user.github.io/", "http://a.co.uk/", "http://badexample.org/", "http://www.badexample.org/", "http://site0399.test/"}
+		srcs := []string{"", "http://example.org/", "http://sub.example.org/", "https://www.google.co.uk/", "http://x.google.agoogle.com/", "http://" + a.hA + "/", "http://" + a.hB + "/", "http://x.com/", "http://user.github.io/", "http://a.co.uk/", "http://badexample.org/", "http://www.badexample.org/", "http://site0399.test/", "http://EXAMPLE.org/"}
 		for _, u := range urls {
 			for _, s := range srcs {
 				for _, t := range []rules.RequestType{rules.TypeScript, rules.TypeDocument} {
@@ -204,6 +204,8 @@ func (m *c01Model) run(hist []int) statespace.Outcome {
 			m.violate("matchall-equals-linear-scan", map[string]any{"lost": lost, "added": added},
 				fmt.Sprintf("lists %v, request [%s]: MatchAll returns %v, the rules that individually match are %v", lists, q.desc, g, w), hist)
 		}
+		// (compared as sets, as the property states: a rule filed under two of its
+		// $domain values is returned once per value)
 		for _, r := range got {
 			if !r.Match(q.q) {
 				m.violate("returned-rule-matches", map[string]any{"rule": r.RuleText}, fmt.Sprintf("MatchAll(%s) returned %q which does not match", q.desc, r.RuleText), hist)
